@@ -20,28 +20,24 @@ namespace {
 enum { EV_OP_CALL = 130, EV_OP_RET = 131, EV_CB_ENTER = 132, EV_CB_EXIT = 133 };
 
 // ---- the small universe of keys and patterns
-const RoutingKey &key(int i) {
-    static std::vector<RoutingKey> keys = [] {
-        std::vector<RoutingKey> k;
-        k.push_back(RoutingKeyBuilder{"a", "b"}.build());     // K0
-        k.push_back(RoutingKeyBuilder{"a", "c"}.build());     // K1
-        k.push_back(RoutingKeyBuilder{"d"}.build());          // K2
-        return k;
-    }();
-    return keys[i];
-}
-const RoutingKey &pattern(int i) {
-    static std::vector<RoutingKey> pats = [] {
-        std::vector<RoutingKey> p;
-        p.push_back(RoutingKeyBuilder{"a", "b"}.build());                              // P0 concrete
-        p.push_back(RoutingKeyBuilder{}.level("a").all().build());                     // P1 a/*
-        p.push_back(RoutingKeyBuilder{}.all().all().build());                          // P2 */*
-        p.push_back(RoutingKeyBuilder{}.all().build());                                // P3 *
-        p.push_back(RoutingKeyBuilder{}.level(std::regex{"a|d"}).level("c").build());  // P4 (a|d)/c
-        return p;
-    }();
-    return pats[i];
-}
+// The key objects are built afresh for every execution and shared (as const objects) by all threads of that execution: a key that fills a cache lazily
+// on first use must meet every schedule cold, and state carried from one execution to the next inside a long-lived key would make replays diverge.
+struct KeySet {
+    std::vector<RoutingKey> keys, pats;
+    KeySet() {
+        keys.push_back(RoutingKeyBuilder{"a", "b"}.build());     // K0
+        keys.push_back(RoutingKeyBuilder{"a", "c"}.build());     // K1
+        keys.push_back(RoutingKeyBuilder{"d"}.build());          // K2
+        pats.push_back(RoutingKeyBuilder{"a", "b"}.build());                              // P0 concrete
+        pats.push_back(RoutingKeyBuilder{}.level("a").all().build());                     // P1 a/*
+        pats.push_back(RoutingKeyBuilder{}.all().all().build());                          // P2 */*
+        pats.push_back(RoutingKeyBuilder{}.all().build());                                // P3 *
+        pats.push_back(RoutingKeyBuilder{}.level(std::regex{"a|d"}).level("c").build());  // P4 (a|d)/c
+    }
+};
+std::unique_ptr<const KeySet> g_keys;
+const RoutingKey &key(int i) { return g_keys->keys[i]; }
+const RoutingKey &pattern(int i) { return g_keys->pats[i]; }
 const char *key_name(int i) { static const char *n[] = {"a/b", "a/c", "d"}; return n[i]; }
 const char *pat_name(int i) { static const char *n[] = {"a/b", "a/*", "*/*", "*", "(a|d)/c"}; return n[i]; }
 
@@ -127,6 +123,7 @@ bool linearizable(const Spec &s, std::vector<Flat> &ops, std::string &why) {
 std::unordered_map<std::string, bool> g_memo;    // per worker process: verdict per distinct observed history
 
 void run(const Spec &s, int prog_id) {
+    g_keys = std::make_unique<const KeySet>();
     auto router = std::make_unique<ConcurrentSubjectRouter>();
     std::vector<USubscription> initial;
     auto cb = [](int obs) { return [obs] { vs_event(EV_CB_ENTER, obs, 0); vs_point(7); vs_event(EV_CB_EXIT, obs, 0); }; };
@@ -233,6 +230,10 @@ bool provider(const std::string &prop, const std::string &tier, const std::strin
         { Spec s; s.check = false; s.initial = {0, 0, 0}; s.threads = T{{U(0)}, {U(1)}, {S(0)}}; add(suite, s, b, flavour); }
         { Spec s; s.check = false; s.initial = {0, 0, 0}; s.threads = T{{U(1)}, {U(0)}, {N(0)}}; add(suite, s, b, flavour); }
         { Spec s; s.check = false; s.initial = {0, 0}; s.threads = T{{S(0), U(0)}, {U(1), S(0)}}; add(suite, s, b, flavour); }
+        // readers that run concurrently under the shared lock and use the SAME const key object (wildcard and regex levels)
+        { Spec s; s.check = false; s.initial = {0, 1}; s.threads = T{{N(1)}, {N(1)}, {E(1)}}; add(suite, s, b, flavour); }
+        { Spec s; s.check = false; s.initial = {1, 2}; s.threads = T{{N(4)}, {E(4)}, {N(4), D()}}; add(suite, s, b, flavour); }
+        { Spec s; s.check = false; s.initial = {0}; s.dead = {1}; s.threads = T{{E(2)}, {N(2)}, {E(2)}}; add(suite, s, b, flavour); }
         return true;
     }
     suite.rule = "every schedule with at most c preemptions of 3-4 threads calling one or two operations each on one ConcurrentSubjectRouter (colliding on the same keys), c = 0..bound; "
